@@ -162,6 +162,10 @@ def distribution_for(config, columns, rng):
     fast = ['GaussianUnivariate', 'UniformUnivariate', 'BetaUnivariate', 'GammaUnivariate', 'StudentTUnivariate']
     if config == 'default':
         return None
+    if config == 'kde':
+        return cu.GaussianKDE
+    if config == 'gaussian':
+        return cu.GaussianUnivariate
     if config == 'class':
         return getattr(cu, str(rng.choice(fast)))
     if config == 'name':
